@@ -108,6 +108,7 @@ func checkC12(p *core.Program, r *core.Report) {
 	r.Rule("O12.1", "exactly one public variable per circuit")
 	r.Rule("O12.2", "depth guard precedes any constraint (deletion)")
 	r.Rule("O12.3", "CLI dimension flags reach depth/batch fields, vector/matrix shapes and the stored dimensions identically on every construction path; same Compile configuration")
+	r.Rule("O12.5", "the files written by r1cs, setup and import-setup are created truncated (no stale tail, no append): the exported bytes are exactly the system that was built")
 	r.Rule("O12.4", "no nondeterminism source in definition/construction code")
 	r.Trusted = append(r.Trusted, "gnark's compiler is a deterministic function of the circuit definition's API-call sequence", "urfave/cli flag lookup")
 	r.NotDecided = append(r.NotDecided, "byte-identity of gnark's serialised output across processes/GOMAXPROCS")
@@ -246,6 +247,8 @@ func checkC12(p *core.Program, r *core.Report) {
 	r.Floor("stored-dimension literals", 2)
 	// O12.4
 	checkNoNondeterminism(p, r, ctx)
+	// O12.5: what `r1cs` / `setup` / `import-setup` leave at the output path is the system just built and nothing else
+	checkOutputFilesTruncated(p, r, "O12.5", "the constraint system / keys", "r1cs", "setup", "import-setup")
 }
 
 func enclosingFuncName(e tf.Event) string {
@@ -319,6 +322,11 @@ func checkNoNondeterminism(p *core.Program, r *core.Report, ctx *circuitCtx) {
 				if c, ok := in.(*ssa.Call); ok {
 					if sc := c.Common().StaticCallee(); sc != nil && (sc.String() == "github.com/consensys/gnark/frontend.Compile" || strings.HasSuffix(sc.String(), "extractor.ExtractCircuits")) {
 						roots = append(roots, fn)
+						// a compile call inside a closure: the functions that enclose it are construction code too (a
+						// compile moved into a goroutine is found through its parent's go statement)
+						for e := fn.Parent(); e != nil; e = e.Parent() {
+							roots = append(roots, e)
+						}
 					}
 				}
 			}
